@@ -331,8 +331,12 @@ def run_property(prop: str, tier: str = "quick", replay: Optional[str] = None, t
             r.func = nf["function"]
             r.status = "native"
             violations.append((r, nf))
+    seen_extra = set()
     for x in extra_results:
         for v in x.get("violations", []):
+            if v["name"] in seen_extra:
+                continue  # one VIOLATION line per named check (the first failing input is the replay)
+            seen_extra.add(v["name"])
             f = match_finding(v["name"])
             if f is not None:
                 known_hits.append((f, None))
